@@ -962,6 +962,47 @@ func TestMC_C16(t *testing.T) {
 		if !signed[base+"|"+e1.String()] {
 			return // first snapshot not enabled or refused at signing time: nothing pending
 		}
+		if o == 0 && e1.String() == e2.String() {
+			// the SAME transactions proposed by two chains while pending (legal: both
+			// snapshots are signed before either is finalized); finalize both
+			func() {
+				in2 := fresh(base)
+				if in2 == nil {
+					return
+				}
+				defer in2.close()
+				a, err := in2.stepSnap(1, e1)
+				if err != nil || a == nil || (len(a.txs) == 1 && a.txs[0].kind == "m") {
+					return
+				}
+				if rej, p := in2.validate(a); rej != "" || p != nil {
+					return
+				}
+				b, err := in2.propose(a.txs, in2.m.Net.NodeIds[3], in2.t0+3*uint64(time.Second))
+				if err != nil {
+					return
+				}
+				if rej, p := in2.validate(b); rej != "" || p != nil {
+					c.Outcome("p-same:second-reject")
+					return
+				}
+				cs := c16Case{Base: base, Mode: "pipelined-same-transactions-on-two-chains", Steps: []string{e1.String(), e1.String()}, Order: orders[0]}
+				c.Eval(1)
+				c.Distinct(fmt.Sprintf("%s|pipe-same|%s", base, e1))
+				out, written := r.finish(in2, a, []*c16Snap{b}, cs)
+				c.Outcome("p-same1:" + out)
+				if !written {
+					return
+				}
+				res := in2.finalize(b)
+				if res.failed != nil {
+					c.Violation("same-transactions-on-two-chains:second-write-failed", fmt.Sprintf("snapshot {%s} accepted on two chains while pending; the second finalization failed: %v [%s]", strings.Join(b.kinds(), ","), res.failed, res.site), cs)
+					c.Outcome("p-same2:write-failed")
+				} else {
+					c.Outcome("p-same2:written")
+				}
+			}()
+		}
 		in := fresh(base)
 		if in == nil {
 			return
